@@ -48,6 +48,9 @@ pub fn ledger_reset(clone_fault_at: Option<u32>) {
         l.clone_fault_at = clone_fault_at;
     });
 }
+pub fn disarm_clone_fault() {
+    LEDGER.with(|l| l.borrow_mut().clone_fault_at = None);
+}
 pub fn ledger() -> Ledger {
     LEDGER.with(|l| l.borrow().clone())
 }
